@@ -93,6 +93,14 @@ func (fr *Frame) loopModSet(li *loopInfo) map[string]bool {
 			}
 		}
 	}
+	if os.Getenv("GOVC_DEBUG_MOD") != "" {
+		var ks []string
+		for k := range set {
+			ks = append(ks, k)
+		}
+		sort.Strings(ks)
+		fmt.Fprintf(os.Stderr, "LOOPMOD %s header b%d: %v\n", fr.fn, li.header.Index, ks)
+	}
 	return set
 }
 
@@ -241,6 +249,12 @@ func (fr *Frame) headerEnv(h *ssa.BasicBlock) *Env {
 	} else if fr.top.contract != nil {
 		e.pkg = fr.contractPkg(fr.top.contract)
 	}
+	// entry values of (possibly reassigned) parameters: <name>0
+	for i, p := range fr.fn.Params {
+		if i < len(fr.params) {
+			e.vars[p.Name()+"0"] = fr.params[i]
+		}
+	}
 	return e
 }
 
@@ -379,8 +393,15 @@ func (fr *Frame) runSite(sc *SiteClause, env *Env, pos token.Pos, lbl string) {
 		if l == "" {
 			l = lbl
 		}
-		fr.oblige("site-assert", l, g, sc.Clause.Props, pos, sc.Clause.Src)
+		o := fr.oblige("site-assert", l, g, sc.Clause.Props, pos, sc.Clause.Src)
+		a := len(vc.lines)
 		vc.assume(fr.curR, g)
+		if o != nil {
+			// a known finding may be recorded against a site assertion (witness split): the split
+			// obligations are posed over the whole text, minus the assumption of this very goal
+			o.env = env
+			o.skipFrom, o.skipTo = a, len(vc.lines)
+		}
 	case "assume":
 		vc.note("site assume in contract of " + funcKey(fr.fn) + ": " + sc.Clause.Src)
 		vc.assume(fr.curR, env.evalAssume(sc.Clause.E).T())
